@@ -15,6 +15,7 @@ pub fn dispatch(mode: &str, engine: &str, rest: &[String]) -> anyhow::Result<()>
         ("replay", "gc") => sem::replay_gc(rest),
         ("record", "sess") => sem::record_sessions(rest),
         ("record", "natcat") => natcat::record(rest),
+        ("record", "opt") => sem::record_opt(rest),
         _ => anyhow::bail!("unknown mode/engine {} {}", mode, engine),
     }
 }
